@@ -25,6 +25,9 @@ RULE = ("single writer: every script of <= 2 (quick) / 3 (thorough) body actions
         "(EEXIST/ENOENT/EIO/ENOSPC/EACCES as applicable), pairs of faults, a directory snapshot at every boundary (= crash "
         "point) and a real fork+os._exit kill at each boundary. two writers: every interleaving (DFS over the scheduler's "
         "choices) of their boundaries for several configurations (clean, body exception, faults at close/replace, decoys). "
+        "histories: two AtomicWriter OBJECTS, each re-used for a list of uses (normal and exceptional exits), threads in "
+        "lock-step: every interleaving for empty bodies, fixed 'the other slips in after k operations' patterns, random "
+        "schedules and one injected fault at each boundary of sampled schedules; oracle after every operation. "
         "BSP.save: the sample tests/test_vec/rot_main.bsp stripped to ~2 kB and at full size, same treatment. "
         "A case = (scenario, fault plan, kill point / schedule); non-trivial = has a fault, a kill point, a body exception, "
         "a decoy or a second writer; distinct by content.")
@@ -691,9 +694,8 @@ def _call_writer(d, sc, dest):
             raise EXC[exc[1]](BODY_MARK)
 
 
-def check_two(ctx, res, desc):
-    dests = [DEST, DEST2]
-    # ownership of temp files: nobody touches a temp file created by the other writer while it is live
+def check_ownership(ctx, res, desc):
+    """Nobody touches a temp file created by the other writer while it is live."""
     owner = {}
     for (w, op, name, arg, r) in res['events']:
         if not TMP_RE.match(str(name)):
@@ -710,6 +712,11 @@ def check_two(ctx, res, desc):
             ctx.witness('bystander-clobbered', f'writer {w} performed {op} on pre-existing {name}', desc)
         if op in ('replace', 'unlink') and r == 'ok':
             owner.pop(name, None)
+
+
+def check_two(ctx, res, desc):
+    dests = [DEST, DEST2]
+    check_ownership(ctx, res, desc)
     for k, s in enumerate(res['snaps'] + [res['dir']]):
         for i in (0, 1):
             got = s.get(dests[i])
@@ -798,6 +805,272 @@ def explore_two(ctx, sb, mb):
             mb.flush()
 
 
+# --------------------------------------------------------------------------- histories: writer OBJECTS used several times
+
+def hist_configs(ctx):
+    """(label, objects, decoys, mode) — object = {'dest', 'old', 'uses': [{'script': [hex…], 'exc': None|[k, name]}]};
+    mode: 'all' = every interleaving (DFS), otherwise number of random schedules (plus the fixed patterns)."""
+    u = lambda hexes, exc=None: {'script': [['w', h] for h in hexes], 'exc': exc}
+    A = lambda uses, old=None: {'dest': DEST, 'old': old, 'uses': uses}
+    B = lambda uses, old=None: {'dest': DEST2, 'old': old, 'uses': uses}
+    big = ['gen', 9000, 5]
+    cfgs = [
+        ('reuse-empty-bodies', [A([u([]), u([])]), B([u([])])], {}, 'all'),
+        ('reuse', [A([u(['4131']), u(['4132', '4132'])], OLD.hex()), B([u(['4231', '4231'])], OLD2.hex())], {}, ctx.budget(150, 3000)),
+        ('reuse-after-exception', [A([u(['4131'], [1, 'ValueError']), u(['4132'])], OLD.hex()), B([u(['4231'])])], {'tmp_2': '07'},
+         ctx.budget(70, 1500)),
+        ('both-reused', [A([u(['4131']), u(['4132'])]), B([u(['4231']), u(['4232'], [0, 'KeyboardInterrupt']), u(['4233'])], OLD2.hex())],
+         {}, ctx.budget(90, 2000)),
+        ('reuse-long-chunks', [A([u(['4131']), {'script': [['w', big], ['w', '4132']], 'exc': None}], OLD.hex()),
+                               B([{'script': [['w', '4231'], ['w', big]], 'exc': None}], OLD2.hex())], {}, ctx.budget(30, 600)),
+    ]
+    if ctx.thorough:
+        cfgs.append(('reuse-one-write-all', [A([u(['4131']), u(['4132'])]), B([u(['4231'])])], {}, 'all'))
+    return cfgs
+
+
+def use_ops(use):
+    return [('w', data_of(op[1])) if op[0] == 'w' else ('s', op[1]) for op in use['script']]
+
+
+def run_hist(sb, objs, faults, decoys, prefix, flush=True):
+    """Each object is ONE AtomicWriter instance, used for its list of uses in its own thread; the threads are
+    interleaved in lock-step at every file-system operation according to `prefix` (then lowest id first)."""
+    files = {KEEP: KEEP_BYTES}
+    for o in objs:
+        if o.get('old') is not None:
+            files[o['dest']] = bytes.fromhex(o['old'])
+    for n, h in decoys.items():
+        files[n] = bytes.fromhex(h)
+    d = sb.fresh(files)
+    ls = LockStep(len(objs))
+
+    def hook(t, w, idx, op, name, arg):
+        ls.park(w)
+        k = faults.get((w, idx))
+        if k:
+            raise make_fault(k, name)
+
+    tr = Tracer(d, flush=flush, hook=hook)
+    outcomes = [[] for _ in objs]
+    errors = [[] for _ in objs]
+    marks = [[] for _ in objs]      # number of events recorded when each use ended
+
+    def worker(wid, o):
+        from srctools import AtomicWriter
+        tr.set_wid(wid)
+        try:
+            writer = AtomicWriter(os.path.join(d, o['dest']), is_bytes=True)
+            for use in o['uses']:
+                err = None
+                exc = use.get('exc')
+                try:
+                    with writer as f:
+                        for k, op in enumerate(use['script']):
+                            if exc and exc[0] == k:
+                                raise EXC[exc[1]](BODY_MARK)
+                            if op[0] == 'w':
+                                f.write(data_of(op[1]))
+                            else:
+                                f.seek(op[1])
+                        if exc and exc[0] >= len(use['script']):
+                            raise EXC[exc[1]](BODY_MARK)
+                except SystemExit:
+                    raise
+                except BaseException as e:
+                    err = e
+                outcomes[wid].append(classify(err))
+                errors[wid].append(repr(err) if err is not None else None)
+                marks[wid].append(len(tr.events))
+        except SystemExit:
+            pass
+        finally:
+            ls.finish(wid)
+
+    choices, shots = [], []
+    threads = [threading.Thread(target=worker, args=(i, o), daemon=True) for i, o in enumerate(objs)]
+    try:
+        with tr:
+            for t in threads:
+                t.start()
+            while True:
+                alive = ls.settle()
+                if not alive:
+                    break
+                shots.append(snapshot(d))
+                i = len(choices)
+                w = prefix[i] if i < len(prefix) and prefix[i] in alive else alive[0]
+                choices.append((tuple(alive), w))
+                ls.step(w)
+            for t in threads:
+                t.join(10)
+    finally:
+        ls.release_all()
+        for t in threads:
+            t.join(5)
+    res = {'events': tr.events, 'outcomes': outcomes, 'errors': errors, 'dir': snapshot(d), 'snaps': shots,
+           'choices': choices, 'files': files, 'marks': marks}
+    sb.drop(d)
+    return res
+
+
+def check_hist(ctx, objs, faults, res, desc):
+    """The property after every step of a history over re-used writer objects."""
+    check_ownership(ctx, res, desc)
+    dests = [o['dest'] for o in objs]
+    news = [[replay_script(use_ops(u)) if not u.get('exc') else None for u in o['uses']] for o in objs]
+    olds = [res['files'].get(o['dest']) for o in objs]
+    for k, s in enumerate(res['snaps'] + [res['dir']]):
+        for i, o in enumerate(objs):
+            got = s.get(o['dest'])
+            allowed = [olds[i]] + [n for n in news[i] if n is not None]
+            if got not in allowed:
+                ctx.witness('mixture', f'history, after {k} operations: {o["dest"]} holds {_short(got)}, which is neither its old '
+                            f'contents nor the complete contents written by any use of its writer', desc)
+        for n, b in res['files'].items():
+            if n not in dests and s.get(n) != b:
+                ctx.witness('bystander-clobbered', f'history, after {k} operations: {n} changed from {_short(b)} to {_short(s.get(n))}', desc)
+    fin = res['dir']
+    faulted = {w for (w, _) in faults}
+    for i, o in enumerate(objs):
+        outs = res['outcomes'][i]
+        if len(outs) != len(o['uses']):
+            ctx.witness('unexpected-exception', f'writer object {i} completed {len(outs)} of {len(o["uses"])} uses', desc)
+        want = olds[i]
+        for j, out in enumerate(outs):
+            u = o['uses'][j]
+            if out == 'ok':
+                if u.get('exc'):
+                    ctx.witness('exception-swallowed', f'object {i} use {j}: the body raised but the with statement completed', desc)
+                want = news[i][j] if news[i][j] is not None else want
+            elif str(out).startswith('other:') or (i not in faulted and out != ('body' if u.get('exc') else 'ok')):
+                ctx.witness('unexpected-exception', f'object {i} use {j} ended with {res["errors"][i][j]} although nothing was '
+                            f'injected into this writer', desc)
+        if fin.get(o['dest']) != want:
+            ctx.witness('commit-lost' if want != olds[i] else 'old-not-preserved',
+                        f'history finished (outcomes {res["outcomes"]}): {o["dest"]} holds {_short(fin.get(o["dest"]))}, expected '
+                        f'{_short(want)} (the last use that returned normally)', desc)
+    left = [n for n in fin if n not in res['files'] and n not in dests and n not in failed_unlinks(res['events'])]
+    if left:
+        ctx.witness('tmp-left-behind', f'history finished (outcomes {res["outcomes"]}) and left {left} behind', desc)
+
+
+def hist_desc(label, objs, faults, decoys, sched):
+    return {'kind': 'hist', 'label': label, 'objs': objs, 'faults': [[w, i, k] for (w, i), k in faults.items()],
+            'decoys': decoys, 'schedule': sched}
+
+
+def explore_hist(ctx, sb, mb):
+    rng = ctx.rng
+    for label, objs, decoys, mode in hist_configs(ctx):
+        results = []
+        seen = set()
+
+        def one(prefix, faults):
+            res = run_hist(sb, objs, faults, decoys, prefix)
+            sched = [c for _, c in res['choices']]
+            key = (tuple(sched), tuple(sorted(faults.items())))
+            if key in seen:
+                return res, sched
+            seen.add(key)
+            check_hist(ctx, objs, faults, res, hist_desc(label, objs, faults, decoys, sched))
+            ctx.case({'hist': label, 'schedule': ''.join(map(str, sched)), 'faults': sorted(faults.items())},
+                     nontrivial=True, sample_every=301)
+            ctx.count('history-schedules:' + label)
+            results.append((sched, faults, res))
+            return res, sched
+
+        # fixed patterns: sequential, and "the other writer slips in after k operations of the first"
+        patterns = [[0] * 80, [1] * 80]
+        for k in range(2, 9):
+            for m in (1, 2, 3):
+                patterns.append([0] * k + [1] * m + [0] * 40)
+                patterns.append([1] * k + [0] * m + [1] * 40)
+        base_runs = []
+        for pat in patterns:
+            base_runs.append(one(pat, {}))
+        complete = None
+        if mode == 'all':
+            stack, n, complete = [[]], 0, True
+            cap = ctx.budget(1500, 20000)
+            while stack:
+                if n >= cap:
+                    complete = False
+                    break
+                prefix = stack.pop()
+                res, sched = one(prefix, {})
+                n += 1
+                for i in range(len(prefix), len(sched)):
+                    alive, chosen = res['choices'][i]
+                    for alt in alive:
+                        if alt != chosen:
+                            stack.append(sched[:i] + [alt])
+        else:
+            for _ in range(mode):
+                one([rng.randrange(len(objs)) for _ in range(90)], {})
+        # one injected fault at each boundary of a few schedules
+        picks = base_runs[:2] + [base_runs[i] for i in sorted(rng.sample(range(2, len(base_runs)), ctx.budget(3, 10)))]
+        for res, sched in picks:
+            cnt = [0] * len(objs)
+            for w in sched:
+                idx = cnt[w]; cnt[w] += 1
+                op = None
+                k2 = 0
+                for e in res['events']:
+                    if e[0] == w:
+                        if k2 == idx:
+                            op = e[1]
+                            break
+                        k2 += 1
+                kind = 'enoent' if op == 'unlink' and rng.random() < 0.5 else rng.choice(['eio', 'enospc', 'eperm'])
+                if op == 'create' and rng.random() < 0.4:
+                    kind = 'eexist'
+                one(sched, {(w, idx): kind})
+                ctx.count(f'history-fault@{op}')
+        ctx.extra.setdefault('history_runs', {})[label] = {'schedules': len(results), 'all_interleavings': complete}
+        # model
+        if mb.drv is not None and results:
+            files = results[0][2]['files']
+            codes = {DEST: [0, 0], DEST2: [0, 1], KEEP: [0, 2]}
+            dest_of = {i: o['dest'] for i, o in enumerate(objs)}
+            queries, meta = [], []
+            for sched, faults, res in results:
+                cnt = [0] * len(objs)
+                ms = []
+                for w in sched:
+                    ms.append([w, FAULT_CODE.get(faults.get((w, cnt[w])), 0)])
+                    cnt[w] += 1
+                queries.append({'sched': ms}); meta.append((sched, faults, res, None))
+                step = 1 if len(res['snaps']) <= 24 else 3
+                for k in range(0, len(res['snaps']), step):
+                    queries.append({'sched': ms[:k]}); meta.append((sched, faults, res, k))
+            mo = lambda o, code: {'dest': code, 'uses': [{'script': [['w', list(d)] if t == 'w' else ['s', d] for t, d in use_ops(u)],
+                                                          'exc': (u['exc'][0] if u.get('exc') else None)} for u in o['uses']]}
+            req = {'op': 'hist', 'impl': None, 'o1': mo(objs[0], [0, 0]), 'o2': mo(objs[1], [0, 1]),
+                   'fs': model_fs(files, codes), 'full': True, 'queries': queries}
+
+            def cb(rep, meta=meta, codes=codes, label=label, dest_of=dest_of):
+                if 'error' in rep:
+                    raise_internal('driver: ' + rep['error'])
+                for (sched, faults, res, k), m in zip(meta, rep['r']):
+                    cd = {'hist': label, 'schedule': sched, 'faults': sorted(faults.items()), 'k': k}
+                    md = model_dir(m['dir'], codes)
+                    if k is None:
+                        mev = model_events(m['trace'], codes, dest_of)
+                        if mev != res['events']:
+                            ctx.disagree(cd, res['events'], mev, 'history: operation trace')
+                        mouts = [[OUTNAMES[x] for x in m['outs1']], [OUTNAMES[x] for x in m['outs2']]]
+                        if mouts != res['outcomes']:
+                            ctx.disagree(cd, res['outcomes'], mouts, 'history: outcomes of the uses')
+                        if not same_dir(res['dir'], md):
+                            ctx.disagree(cd, show_dir(res['dir']), show_dir(md), 'history: final directory')
+                        ctx.traces_vs_impl += 1
+                    elif not same_dir(res['snaps'][k], md):
+                        ctx.disagree(cd, show_dir(res['snaps'][k]), show_dir(md), f'history: directory after {k} operations')
+            mb.add(req, cb)
+            mb.flush()
+
+
 # --------------------------------------------------------------------------- the check
 
 def explore(ctx, drv):
@@ -878,6 +1151,11 @@ def explore(ctx, drv):
         explore_two(ctx, sb, mb)
         mb.flush()
         ctx.log(f'two writers done in {time.time() - t0:.1f}s')
+        # (D) histories over re-used writer objects
+        t0 = time.time()
+        explore_hist(ctx, sb, mb)
+        mb.flush()
+        ctx.log(f'histories over re-used writer objects done in {time.time() - t0:.1f}s')
     finally:
         sb.close()
 
@@ -976,7 +1254,11 @@ def _rerun(ctx, sb, inp):
     import common
     sub = common.Ctx(PID, ctx.tier, ctx.seed)
     kind = inp.get('kind')
-    if kind == 'two':
+    if kind == 'hist':
+        faults = {(w, i): k for w, i, k in inp.get('faults', [])}
+        res = run_hist(sb, inp['objs'], faults, inp.get('decoys', {}), inp['schedule'], flush=inp.get('flush', True))
+        check_hist(sub, inp['objs'], faults, res, inp)
+    elif kind == 'two':
         faults = {(w, i): k for w, i, k in inp.get('faults', [])}
         res = run_two(sb, inp['sc1'], inp['sc2'], faults, inp.get('decoys', {}), inp['schedule'], flush=inp.get('flush', True))
         check_two(sub, res, inp)
@@ -1066,7 +1348,9 @@ LEVEL_TEXT = ("Theorems about the small-step model of AtomicWriter (as coded; sh
               "C12_crash (every script, fault plan and crash point: destination = old or = new; only a successful rename "
               "changes it), C12_fail (a raised outcome leaves the whole directory as it was unless the unlink itself failed), "
               "C12_commit, C12_two (two writers, distinct destinations, every schedule and fault plan: live temp names "
-              "distinct, each destination old_i or new_i, nobody touches the other's temp), C12_save (translator fact: BSP.save "
+              "distinct, each destination old_i or new_i, nobody touches the other's temp), C12_reuse_fresh / C12_hist_two / "
+              "C12_hist_no_touch (writer objects re-used any number of times: __exit__ restores the initial state - translator "
+              "fact C12_gen_reset - so each use is a fresh writer and the two-writer theorems hold for histories), C12_save (translator fact: BSP.save "
               "writes only inside `with AtomicWriter(filename or self.filename)`). The model is tied to the code by the operation "
               "trace, outcome and directory bytes at every boundary of fault-injected, killed and interleaved runs.")
 LEVEL_NOTE = ("Trusted: Lean kernel + propext/Classical.choice/Quot.sound; tools/gen_save.py; harness/c12_fs.py instrumentation; "
